@@ -40,12 +40,18 @@ def gen_case(rng, big):
         b = []
         for j in range(m):
             col = [r[j] for r in mtx]
-            if rng.random() < 0.5:
+            t = rng.random()
+            if t < 0.4:
                 b.append(None)
+            elif t < 0.5:
+                b.append(0.0)                 # a legal bound: nothing may be used / no lower bound at all
             elif objs[j] == 1:
-                b.append(max(col) * rng.choice([1.0, 1.5, 2.0]))
+                # looser than, equal to, or TIGHTER than the default (the column maximum)
+                b.append(max(col) * rng.choice([1.0, 1.5, 2.0, 0.75, 0.5, 0.25]))
             else:
-                b.append(min(col) * rng.choice([1.0, 0.5]))
+                b.append(min(col) * rng.choice([1.0, 0.5, 1.25, 2.0, 4.0]))
+        if all(v is None for v in b) or all(v is not None for v in b):
+            b[rng.randrange(m)] = None if all(v is not None for v in b) else 0.0
     return {"matrix": mtx, "objectives": objs, "weights": [1.0] * m, "b": b,
             "alternatives": [f"A{i}" for i in range(n)] if rng.random() < 0.7 else gen.labels(rng, n, [], "Q"),
             "criteria": gen.labels(rng, m, gen.LABEL_POOL_C, "C"),
@@ -81,7 +87,16 @@ def highs_optimum(case, z):
 def run(ctx):
     I.repo_check()
     ctx.rule = RULE
-    cases = [gen_case(ctx.rng, ctx.tier == "thorough") for _ in range(ctx.n(60, 700))]
+    cases, want = [], ctx.n(60, 700)
+    while len(cases) < want:
+        c = gen_case(ctx.rng, ctx.tier == "thorough")
+        # a user bound may make a stage infeasible: such a problem has no SIMUS solution and is outside the property
+        if c["b"] is not None and any(highs_optimum(c, z) is None for z in range(len(c["objectives"]))):
+            ctx.count("generated_problem_with_an_infeasible_stage_skipped")
+            continue
+        ctx.count("b:" + ("default" if c["b"] is None else
+                          "user(" + ",".join(sorted({"none" if v is None else "zero" if v == 0 else "value" for v in c["b"]})) + ")"))
+        cases.append(c)
     outs = I.pmap(M.evaluate, cases, chunksize=1)
     # ---- stage LPs from the model, exact certificates from the untrusted simplex --------------------
     lp_calls, own = [], []
